@@ -41,7 +41,7 @@ EXPECTED_PROBES = ["memo_hit", "memo_equal_distinct_key", "after_flood", "after_
 
 def plan(tier):
     if tier == "quick":
-        return {"runs": 24000, "chunk": 200, "wall_cap": 150}
+        return {"runs": 20000, "chunk": 200, "wall_cap": 150}
     return {"runs": 1200000, "chunk": 1000, "wall_cap": 3000}
 
 
@@ -102,7 +102,7 @@ def gen_case(rng, tier):
     live = []
     nid = 0
     seqs = []
-    for _ in range(rng.randint(8, 35)):
+    for _ in range(rng.randint(8, 35) if rng.random() >= 0.03 else rng.randint(80, 160)):
         r = rng.random()
         if r < 0.14:
             kind = rng.choice(["of_length", "of_length", "up_to_length", "first", "mesh_of_length", "mesh_of_length_patt"])
